@@ -141,3 +141,46 @@ func VerifC19Dial() {
 	rt.Assert(r, "a-sender-whose-context-ended-is-not-held-by-somebody-elses-stuck-dial")
 	rt.Reach("released")
 }
+
+// ---- a write that fails ends the stream: every index entry and tag for it goes, later sends do not target it
+
+type vC19fStream struct {
+	ctx  context.Context
+	gate chan bool
+}
+
+func (s *vC19fStream) Context() context.Context { return s.ctx }
+func (s *vC19fStream) MsgSend(msg drpc.Message, enc drpc.Encoding) error {
+	if fail := <-s.gate; fail {
+		return context.DeadlineExceeded
+	}
+	return nil
+}
+func (s *vC19fStream) MsgRecv(msg drpc.Message, enc drpc.Encoding) error { return nil }
+func (s *vC19fStream) CloseSend() error                                  { return nil }
+func (s *vC19fStream) Close() error                                      { return nil }
+
+func VerifC19WriteFail() {
+	p := New().(*streamPool)
+	fs := &vC19fStream{ctx: peer.CtxWithPeerId(context.Background(), "p0"), gate: make(chan bool)}
+	st, err := p.addStream(fs, 2, "t0")
+	rt.Assert(err == nil, "add-stream")
+	go st.writeLoop()
+	rt.Settle()
+	rt.Assert(p.SendById(context.Background(), &vC19lMsg{n: 0}, "p0") == nil, "first-send-accepted")
+	rt.Settle()
+	fail := rt.Bool()
+	fs.gate <- fail
+	rt.Settle()
+	p.mu.Lock()
+	nStreams, nPeer, nTag := len(p.streams), len(p.streamIdsByPeer["p0"]), len(p.streamIdsByTag["t0"])
+	p.mu.Unlock()
+	if fail {
+		rt.Assert(nStreams == 0 && nPeer == 0 && nTag == 0, "a-stream-whose-write-failed-leaves-every-index")
+		rt.Assert(p.SendById(context.Background(), &vC19lMsg{n: 1}, "p0") != nil, "later-sends-do-not-target-the-ended-stream")
+		rt.Reach("failed")
+	} else {
+		rt.Assert(nStreams == 1 && nPeer == 1 && nTag == 1, "a-healthy-stream-stays-indexed")
+		rt.Reach("written")
+	}
+}
